@@ -370,6 +370,37 @@ func c14Pool(r *Run) {
 			cc.Init(ccl)
 			res, err := ccl.Codec.Decode(bad, cc)
 			p.out = fmt.Sprintf("%#v %v", res, err != nil)
+		case "number-as-string":
+			// a number on the wire decoded where a string is expected: the string must own its bytes
+			in := []byte(fmt.Sprintf(`a4{i%d;l%d;d%d.25;s3"abc"}`, 1000+p.arg, 99999999000+int64(p.arg), p.arg))
+			var v []string
+			err := hio.Unmarshal(in, &v)
+			for i := range in {
+				in[i] = 'X'
+			}
+			var w string
+			rd := strings.NewReader(fmt.Sprintf(`i%d;`, 7000+p.arg))
+			e2 := hio.UnmarshalFromReader(rd, &w)
+			var w2 string
+			e3 := hio.UnmarshalFromReader(strings.NewReader(`i11111111;`), &w2)
+			p.out = fmt.Sprintf("%q %v %q %v %q %v", v, err, w, e2, w2, e3)
+		case "client-response-with-headers-and-references":
+			// the header map is decoded by the same pooled decoder right before the body: its keys and values must
+			// not be what the body's references point at
+			sc := core.NewServiceContext(svc)
+			sc.ResponseHeaders().Set("traceId", fmt.Sprintf("t%03d", p.arg))
+			sc.ResponseHeaders().Set("region", "eu")
+			dup := fmt.Sprintf("hdr%03d", p.arg)
+			resp, err := svc.Codec.Encode([]string{dup, dup, "x", dup}, sc)
+			if err != nil || resp[0] != 'H' {
+				p.out = fmt.Sprintf("harness: %q %v", resp, err)
+				return
+			}
+			cc := core.NewClientContext()
+			cc.Init(ccl)
+			cc.ReturnType = []reflect.Type{reflect.TypeOf([]string(nil))}
+			res, err := ccl.Codec.Decode(append([]byte(nil), resp...), cc)
+			p.out = fmt.Sprintf("%#v %v", res, err)
 		case "service-simple-request":
 			// what a client configured for simple mode sends: a header saying so, which switches the pooled decoder
 			// that reads the request into simple mode for that one use
@@ -496,7 +527,8 @@ func c14Pool(r *Run) {
 	kinds := []string{"marshal-simple", "marshal-ref", "unmarshal-bad", "unmarshal-good", "unmarshal-ref", "unmarshal-longtype", "decoder-reuse",
 		"codec-with-all-options", "probe-defaults", "probe-defaults",
 		"service-bad-request", "service-good-request", "service-good-request", "client-bad-response", "client-good-response",
-		"service-request-with-references", "client-response-with-references", "service-simple-request", "client-simple-response"}
+		"service-request-with-references", "client-response-with-references", "service-simple-request", "client-simple-response",
+		"number-as-string", "client-response-with-headers-and-references"}
 	var all []*pop
 	fin := 0
 	for t := 0; t < ntasks; t++ {
@@ -539,6 +571,11 @@ func c14Pool(r *Run) {
 		case "client-response-with-references":
 			d := fmt.Sprintf("res%03d", p.arg)
 			want = fmt.Sprintf("%#v %v", []interface{}{[]string{d, d, d}}, nil)
+		case "client-response-with-headers-and-references":
+			d := fmt.Sprintf("hdr%03d", p.arg)
+			want = fmt.Sprintf("%#v %v", []interface{}{[]string{d, d, "x", d}}, nil)
+		case "number-as-string":
+			want = fmt.Sprintf("%q %v %q %v %q %v", []string{fmt.Sprint(1000 + p.arg), fmt.Sprint(99999999000 + int64(p.arg)), fmt.Sprintf("%d.25", p.arg), "abc"}, nil, fmt.Sprint(7000+p.arg), nil, "11111111", nil)
 		}
 		if want != "" && p.out != want {
 			r.Fail("C14:pooled-coder-state-leaks:"+p.kind, "%s(%d) returned %s, expected %s", p.kind, p.arg, p.out, want)
